@@ -28,7 +28,7 @@ Definition pc_ok (k : kind) (p : pc) : bool :=
   | KClient OpRebuild => rb_pc p || is_ret p
   | KClient OpCancel => match p with PCaStart | PCaSet _ | PCaWait _ | PRet _ => true | _ => false end
   | KClient OpDispose => match p with PDiStart | PDiStop _ | PDiStopWait _ | PDiWait _ | PRet _ => true | _ => false end
-  | KClient OpWatch => match p with PWaStart | PRet _ => true | _ => false end
+  | KClient OpWatch => match p with PWaStart | PWaRet _ | PRet _ => true | _ => false end
   | KWatchFirst => rb_pc p || is_ret p || match p with PWfStart | PWfWait _ => true | _ => false end
   | KWatcher => rb_pc p || match p with PWlCheck | PWlSleep => true | PRet _ => true | _ => false end
   end.
@@ -300,7 +300,7 @@ Lemma sinv_watch : forall s t dsp,
   SInv (set_pc (mkState dsp (active s) (recent s) true (nt s) (stopFlag s) (wexited s)
                         (edits s) (nb s) (blds s) (S (S (nt s)))
                         (upd (upd (thr s) (nt s) (mkThread KWatcher 0 PWlCheck)) (S (nt s)) (mkThread KWatchFirst 0 PWfStart))
-                        (ncalls s)) t (PRet RvUnit)).
+                        (ncalls s)) t (PWaRet RvUnit)).
 Proof.
   intros s t dsp I Ht Hpc Hw.
   assert (Kt : t_kind (thr s t) <> KWatcher).
